@@ -14,6 +14,10 @@ The model contains the code as it is:
   D14  `ThreadLocalPtrProxy::operator=(const ThreadLocalPtrProxy&)` (`q = p` between two thread-local pointers) calls
        `SetDefault`, i.e. it writes the process-wide default of `q` instead of this fiber's slot: fibers that have not
        assigned `q` themselves see the value, and a fiber that has does not see its own assignment.
+
+The flag `fixed` switches on the proposed repairs (notes/C18_proposed_patches.diff): one global index counter (`l` gets
+its own slot, never written here) and `Set(GetImpl(other._i), _i)` in the copy assignment.  Not the code; the
+theorems for `fixed = true` show the repairs are sufficient.
 -/
 import YaclibModel.Model.FiberSync
 
@@ -27,6 +31,7 @@ inductive Pc where
   deriving DecidableEq, Repr
 
 structure State where
+  fixed : Bool                 -- hypothetical: D13, D14 repaired (see header); `false` = the code
   pc : Fid → Pc
   fin : Fid → Bool             -- `FiberBase::_state == Completed` (the thread function returned, `Exit()` ran)
   slot0 : Fid → Option Nat     -- `_tls[0]` of each fiber (`none` = no entry): shared by `p` and `l` (D13)
@@ -37,8 +42,8 @@ structure State where
   -- ghost
   lastQ : Fid → Option (Option Nat)   -- what this fiber itself last assigned to `q` (`none` = never assigned)
 
-def init (n : Nat) : State :=
-  { pc := fun g => if g < n then .idle else .done, fin := fun _ => false, slot0 := fun _ => none, slot1 := fun _ => none,
+def init (fixed : Bool) (n : Nat) : State :=
+  { fixed := fixed, pc := fun g => if g < n then .idle else .done, fin := fun _ => false, slot0 := fun _ => none, slot1 := fun _ => none,
     def0 := none, def1 := none, now := 0, lastQ := fun _ => none }
 
 /-- `FiberBase::GetTLS(i, defaults)`: own entry, else the default -/
@@ -61,7 +66,12 @@ inductive Label where
 
 /-- D14: `if (Get() == other.Get()) return; SetDefault(GetImpl(other._i), _i);` -/
 def doCopy (s : State) (f : Fid) : State :=
-  { s with def1 := if read1 s f = read0 s f then s.def1 else read0 s f, lastQ := upd s.lastQ f (some (read0 s f)) }
+  { s with slot1 := if s.fixed then upd s.slot1 f (read0 s f) else s.slot1,
+           def1 := if s.fixed then s.def1 else (if read1 s f = read0 s f then s.def1 else read0 s f),
+           lastQ := upd s.lastQ f (some (read0 s f)) }
+
+/-- what `l.Get()` returns: slot 0 again (D13), its own never-written slot when repaired -/
+def readL (s : State) (f : Fid) : Option Nat := if s.fixed then none else read0 s f
 
 inductive Step : State → Label → State → Prop where
   | joinStart (s : State) (f k : Fid) (h : s.pc f = .idle) : Step s (.joinStart f k) { s with pc := upd s.pc f (.joining k) }
@@ -80,15 +90,15 @@ inductive Step : State → Label → State → Prop where
   | copyQP (s : State) (f : Fid) (h : s.pc f = .idle) : Step s (.copyQP f) (doCopy s f)
   | getQ (s : State) (f : Fid) (h : s.pc f = .idle) : Step s (.getQ f (read1 s f)) s
   /-- D13: index 0 again -/
-  | getL (s : State) (f : Fid) (h : s.pc f = .idle) : Step s (.getL f (read0 s f)) s
+  | getL (s : State) (f : Fid) (h : s.pc f = .idle) : Step s (.getL f (readL s f)) s
   | sleepStart (s : State) (f : Fid) (t d : Nat) (h : s.pc f = .idle) (ht : s.now ≤ t) :
       Step s (.sleepStart f t d) { s with pc := upd s.pc f (.sleeping (t + d)), now := t }
   | sleepWake (s : State) (f : Fid) (t dl : Nat) (h : s.pc f = .sleeping dl) (hd : dl ≤ t) (ht : s.now ≤ t) :
       Step s (.sleepWake f t) { s with pc := upd s.pc f .idle, now := t }
 
-inductive Reachable (n : Nat) : State → Prop where
-  | init : Reachable n (init n)
-  | step {s l s'} : Reachable n s → Step s l s' → Reachable n s'
+inductive Reachable (fixed : Bool) (n : Nat) : State → Prop where
+  | init : Reachable fixed n (init fixed n)
+  | step {s l s'} : Reachable fixed n s → Step s l s' → Reachable fixed n s'
 
 def next (s : State) : Label → Option State
   | .joinStart f k => if s.pc f = .idle then some { s with pc := upd s.pc f (.joining k) } else none
@@ -102,7 +112,7 @@ def next (s : State) : Label → Option State
       else none
   | .copyQP f => if s.pc f = .idle then some (doCopy s f) else none
   | .getQ f r => if s.pc f = .idle ∧ r = read1 s f then some s else none
-  | .getL f r => if s.pc f = .idle ∧ r = read0 s f then some s else none
+  | .getL f r => if s.pc f = .idle ∧ r = readL s f then some s else none
   | .sleepStart f t d =>
       if s.pc f = .idle ∧ s.now ≤ t then some { s with pc := upd s.pc f (.sleeping (t + d)), now := t } else none
   | .sleepWake f t =>
